@@ -159,8 +159,13 @@ def summarise(prop, cases, results, skipped, wall):
             samples.append({"clause": r["clause"], "params": r["params"], "status": "ok"})
         if len(samples) >= 12:
             break
+    infos = {}
+    for r in results:
+        if isinstance(r.get("info"), dict) and r["clause"].endswith("coverage"):
+            infos.setdefault(r["clause"], []).append(r["info"])
     return {
         "property": prop,
+        "infos": {k: v[:3] for k, v in infos.items()},
         "generated": len(cases),
         "evaluations": len(ok) + len(viol),
         "distinct_nontrivial": len(distinct),
